@@ -53,7 +53,7 @@ REQUIRED = ["pairs", "rotations", "translations", "scalings", "renumberings", "l
             "length_compared", "multisets_compared", "per_node_compared", "sholl_fixed_radii_compared",
             "sholl_steps_compared", "angles_compared", "orders_compared", "volume_compared",
             "small_extent_scalings", "file_sourced_trees", "tap_sholl_get",
-            "twins_with_float64_columns", "remeasured_after_all_queries"]
+            "twins_with_float64_columns", "remeasured_after_all_queries", "size_sweep_cases"]
 FLOOR = {"quick": 350, "thorough": 28000}
 SHARDS = {"quick": 8, "thorough": 16}
 TIMEOUT = {"quick": 400, "thorough": 3000}
@@ -476,6 +476,14 @@ def run(ctx):
                         or case["scale"] != 1):
                     case["renumber"] = True
             ctx.case(case, nontrivial=rc["n"] >= 3, klass=f"motion{m}/{case['by']}")
+            execute(ctx, case)
+        for j, rc in enumerate(G.sweep_recipes(ctx, max_small=2050, numbering="sorted")):
+            # node counts on / next to powers of two and block sizes, renumbered and moved
+            case = {"tree": rc, "mseed": 1000 + 13 * j, "rotate": bool(j % 2), "translate": 0.0,
+                    "scale": 1.0, "renumber": True, "by": "harness", "steps": [200, 333][j % 2],
+                    "volume": False}
+            ctx.case(case, klass="size-sweep")
+            ctx.count("size_sweep_cases")
             execute(ctx, case)
         for j, rc in enumerate(G.real_recipes(rng, 1000)):
             if j % ctx.nshards == ctx.shard:
